@@ -76,11 +76,17 @@ pub struct GenOpts {
     pub claim_version: Option<u8>,
     pub hash_alg: Option<&'static str>,
     pub intent: Option<Intent>,
+    /// exact number of assertions / ingredients (covering arrays); None => random
+    pub n_assertions: Option<usize>,
+    pub n_ingredients: Option<usize>,
+    /// allow labels whose *last* dot-component starts with a non-ASCII character (these currently
+    /// panic the SDK, see C03 finding `nonascii-label-tail`); off by default so other checks see through
+    pub unicode_tail_labels: bool,
 }
 
 impl Default for GenOpts {
     fn default() -> Self {
-        GenOpts { max_assertions: 12, max_ingredients: 3, big_payloads: true, claim_version: None, hash_alg: None, intent: None }
+        GenOpts { max_assertions: 12, max_ingredients: 3, big_payloads: true, claim_version: None, hash_alg: None, intent: None, n_assertions: None, n_ingredients: None, unicode_tail_labels: false }
     }
 }
 
@@ -112,17 +118,29 @@ fn word(rng: &mut Rng) -> String {
 }
 
 /// A custom assertion label: reverse-DNS, occasionally unicode, versioned, or deliberately repeated.
-pub fn gen_label(rng: &mut Rng, used: &[String]) -> String {
+pub fn gen_label(rng: &mut Rng, used: &[String], unicode_tail: bool) -> String {
     if !used.is_empty() && rng.chance(1, 4) {
         // instance collision: same label again (the SDK stores it as label__1, __2 …)
         return rng.pick(used).clone();
     }
     let tld = *rng.pick(&["org.verif", "com.example", "org.verif.sub.deep", "io.github.user"]);
-    let mut l = format!("{tld}.{}", word(rng));
+    let mut l = if rng.chance(1, 5) {
+        // non-ASCII in a middle component
+        format!("{tld}.{}.{}", rng.pick(UNI), rng.pick(WORDS))
+    } else if unicode_tail && rng.chance(1, 10) {
+        format!("{tld}.{}", rng.pick(UNI))
+    } else {
+        format!("{tld}.{}", rng.pick(WORDS))
+    };
     if rng.chance(1, 8) {
         l.push_str(&format!(".v{}", rng.range(1, 3)));
     }
     l
+}
+
+/// True if the last dot-component of the label starts with a non-ASCII character.
+pub fn label_has_nonascii_tail(label: &str) -> bool {
+    label.rsplit('.').next().and_then(|c| c.chars().next()).map(|c| !c.is_ascii()).unwrap_or(false)
 }
 
 fn gen_string(rng: &mut Rng, n: usize) -> String {
@@ -155,11 +173,15 @@ fn gen_scalar(rng: &mut Rng) -> Value {
         0 => Value::Null,
         1 => json!(rng.bool()),
         2 => json!(rng.below(24)),
-        3 => json!(*rng.pick(&[23u64, 24, 255, 256, 65535, 65536, 4294967295, 4294967296, u64::MAX])),
+        // (integers above i64::MAX are rejected by the SDK's CBOR value conversion: C03 keeps a directed case)
+        3 => json!(*rng.pick(&[23u64, 24, 255, 256, 65535, 65536, 4294967295, 4294967296, i64::MAX as u64])),
         4 => json!(*rng.pick(&[-1i64, -24, -25, -256, -257, -65536, -65537, i64::MIN])),
         5 => json!(*rng.pick(&[0.5f64, 1.5, -2.25, 3.141592653589793, 1e300, 65504.0, 1.0e-7, 100000.5])),
         6 => json!(""),
-        7 => json!(gen_string(rng, *rng.pick(&[1usize, 23, 24, 255, 256]))),
+        7 => {
+            let n = *rng.pick(&[1usize, 23, 24, 255, 256]);
+            json!(gen_string(rng, n))
+        }
         _ => {
             let n = rng.usize(40);
             json!(gen_string(rng, n))
@@ -224,7 +246,7 @@ pub fn steer_payload(rng: &mut Rng, target: usize, json_kind: bool) -> Value {
 pub const BOUNDARIES: &[usize] = &[23, 24, 255, 256, 65535, 65536];
 
 fn gen_assertion(rng: &mut Rng, used: &[String], opts: &GenOpts) -> GenAssertion {
-    let label = gen_label(rng, used);
+    let label = gen_label(rng, used, opts.unicode_tail_labels);
     let json_kind = rng.chance(1, 3);
     let via = if rng.chance(1, 3) { Via::Api } else { Via::Definition };
     let (data, steer) = match rng.below(10) {
@@ -257,7 +279,8 @@ fn gen_action(rng: &mut Rng) -> Value {
     let mut a = Map::new();
     a.insert("action".into(), json!(*rng.pick(PLAIN_ACTIONS)));
     if rng.chance(1, 3) {
-        a.insert("description".into(), json!(gen_string(rng, 1 + rng.usize(30))));
+        let n = 1 + rng.usize(30);
+        a.insert("description".into(), json!(gen_string(rng, n)));
     }
     if rng.chance(1, 4) {
         a.insert("when".into(), json!("2024-02-29T12:34:56Z"));
@@ -271,8 +294,8 @@ fn gen_action(rng: &mut Rng) -> Value {
     Value::Object(a)
 }
 
-fn gen_cgi(rng: &mut Rng) -> Vec<Value> {
-    match rng.below(5) {
+fn gen_cgi(rng: &mut Rng, allow_many: bool) -> Vec<Value> {
+    match rng.below(if allow_many { 5 } else { 4 }) {
         0 => vec![],
         1 => vec![json!({"name": "verif app"})],
         2 => vec![json!({"name": format!("Verif {}", word(rng)), "version": format!("{}.{}.{}", rng.below(10), rng.below(10), rng.below(100))})],
@@ -281,20 +304,25 @@ fn gen_cgi(rng: &mut Rng) -> Vec<Value> {
     }
 }
 
-/// Generates one definition.  `n_pool`/`n_signed`: sizes of the ingredient pool (items [0, n_signed)
-/// are signed assets, the rest unsigned).
-pub fn gen_def(rng: &mut Rng, opts: &GenOpts, n_pool: usize) -> GenDef {
+/// Generates one definition.  `pool_choices`: indices of the pool items that may be used as
+/// ingredients (see `IngredientPool::choices`).
+pub fn gen_def(rng: &mut Rng, opts: &GenOpts, pool_choices: &[usize]) -> GenDef {
+    let n_pool = pool_choices.len();
     let title = match rng.below(8) {
         0 => None,
         1 => Some(String::new()),
         2 => Some(format!("tïtle {} — 日本 \"q\" <&>", rng.below(1000))),
-        3 => Some(gen_string(rng, *rng.pick(&[23usize, 24, 255, 256]))),
+        3 => {
+            let n = *rng.pick(&[23usize, 24, 255, 256]);
+            Some(gen_string(rng, n))
+        }
         _ => Some(format!("asset-{}.{}", rng.below(100000), rng.pick(WORDS))),
     };
-    let na = match rng.below(6) {
-        0 => 0,
-        1 => 1,
-        2 => opts.max_assertions,
+    let na = match (opts.n_assertions, rng.below(6)) {
+        (Some(n), _) => n,
+        (_, 0) => 0,
+        (_, 1) => 1,
+        (_, 2) => opts.max_assertions,
         _ => rng.usize(opts.max_assertions + 1),
     };
     let mut assertions = Vec::new();
@@ -318,7 +346,7 @@ pub fn gen_def(rng: &mut Rng, opts: &GenOpts, n_pool: usize) -> GenDef {
         1 => Intent::Create,
         _ => Intent::Edit,
     });
-    let ni = if n_pool == 0 { 0 } else { *rng.pick(&[0usize, 0, 1, 1, 2, 3]) }.min(opts.max_ingredients);
+    let ni = if n_pool == 0 { 0 } else { opts.n_ingredients.unwrap_or_else(|| *rng.pick(&[0usize, 0, 1, 1, 2, 3])) }.min(opts.max_ingredients);
     let mut ingredients = Vec::new();
     let mut have_parent = false;
     for i in 0..ni {
@@ -330,17 +358,35 @@ pub fn gen_def(rng: &mut Rng, opts: &GenOpts, n_pool: usize) -> GenDef {
             have_parent = true;
         }
         ingredients.push(GenIngredient {
-            pool: rng.usize(n_pool),
+            pool: pool_choices[rng.usize(n_pool)],
             relationship: rel.to_string(),
             title: if rng.chance(3, 4) { Some(format!("ingredient {i} {}", word(rng))) } else { None },
             label: if rng.chance(1, 3) { Some(format!("ing_{i}")) } else { None },
         });
     }
     let nact = *rng.pick(&[0usize, 0, 1, 2, 4]);
-    let actions: Vec<Value> = (0..nact).map(|_| gen_action(rng)).collect();
+    let mut actions: Vec<Value> = (0..nact).map(|_| gen_action(rng)).collect();
+    // A claim's first action must be c2pa.created / c2pa.opened.  With an intent the SDK adds it; without
+    // one the definition has to supply it itself (or carry no actions when a parent would need c2pa.opened).
+    let created = json!({"action": "c2pa.created", "digitalSourceType": "http://cv.iptc.org/newscodes/digitalsourcetype/digitalCapture"});
+    match intent {
+        Intent::None => {
+            if have_parent {
+                actions.clear();
+            } else if !actions.is_empty() {
+                actions.insert(0, created);
+            }
+        }
+        Intent::Create => {
+            if rng.chance(1, 4) {
+                actions.insert(0, created);
+            }
+        }
+        Intent::Edit => {}
+    }
     GenDef {
         title,
-        cgi: gen_cgi(rng),
+        cgi: gen_cgi(rng, opts.claim_version == Some(1)),
         vendor: if rng.chance(1, 6) { Some("verifvendor".into()) } else { None },
         claim_version: opts.claim_version,
         hash_alg: opts.hash_alg.map(|s| s.to_string()),
@@ -520,12 +566,21 @@ pub struct PoolItem {
     pub active_label: Option<String>,
     /// label of an assertion in the active manifest that may be redacted
     pub redactable: Option<String>,
+    /// signed with a version-1 claim (usable as an ingredient of a version-1 claim)
+    pub claim_v1: bool,
 }
 
 #[derive(Clone, Debug, Default)]
 pub struct IngredientPool {
     pub items: Vec<PoolItem>,
     pub n_signed: usize,
+}
+
+impl IngredientPool {
+    /// Items usable under a claim of the given version (a v1 claim cannot carry v2 ingredients).
+    pub fn choices(&self, claim_version: Option<u8>) -> Vec<usize> {
+        (0..self.items.len()).filter(|i| claim_version != Some(1) || !self.items[*i].signed || self.items[*i].claim_v1).collect()
+    }
 }
 
 /// Settings JSON used throughout: trust anchors = fixture roots (optional), thumbnails on/off,
@@ -560,11 +615,18 @@ pub fn context(trust: bool, thumbnails: bool, compressed: bool, extra: &Value) -
 
 /// Signs `bytes` with a small fixed definition (used for pool items and chain building).
 pub fn sign_simple(format: &str, bytes: &[u8], title: &str, alg: &str, intent: BuilderIntent, ingredients: &[(&str, &str, &[u8])]) -> Result<Vec<u8>, String> {
+    sign_simple_v(format, bytes, title, alg, intent, ingredients, None)
+}
+
+pub fn sign_simple_v(format: &str, bytes: &[u8], title: &str, alg: &str, intent: BuilderIntent, ingredients: &[(&str, &str, &[u8])], claim_version: Option<u8>) -> Result<Vec<u8>, String> {
     let ctx = context(true, false, false, &json!({}));
-    let def = json!({"title": title, "assertions": [
+    let mut def = json!({"title": title, "assertions": [
         {"label": "org.verif.ing", "data": {"marker": title, "n": 7}},
         {"label": "org.verif.keep", "data": {"keep": true}}
     ]});
+    if let Some(v) = claim_version {
+        def["claim_version"] = json!(v);
+    }
     let mut b = Builder::from_context(ctx).with_definition(def).map_err(|e| e.to_string())?;
     b.set_intent(intent);
     for (j, f, by) in ingredients {
@@ -589,13 +651,22 @@ pub fn ingredient_pool() -> IngredientPool {
         if let Ok(signed) = sign_simple(a.format, &a.bytes, &format!("pool {n}"), "ed25519", create, &[]) {
             let ctx = context(true, false, false, &json!({}));
             let label = Reader::from_context(ctx).with_stream(a.format, Cursor::new(signed.clone())).ok().and_then(|r| r.active_label().map(|s| s.to_string()));
-            items.push(PoolItem { name: format!("signed:{n}"), format: a.format, bytes: signed, signed: true, active_label: label, redactable: Some("org.verif.ing".into()) });
+            items.push(PoolItem { name: format!("signed:{n}"), format: a.format, bytes: signed, signed: true, active_label: label, redactable: Some("org.verif.ing".into()), claim_v1: false });
+        }
+    }
+    for n in ["tiny.jpg", "tiny.png"] {
+        let Some(a) = tiny.iter().find(|a| a.name == n) else { continue };
+        let create = BuilderIntent::Create(DigitalSourceType::DigitalCapture);
+        if let Ok(signed) = sign_simple_v(a.format, &a.bytes, &format!("pool v1 {n}"), "es256", create, &[], Some(1)) {
+            let ctx = context(true, false, false, &json!({}));
+            let label = Reader::from_context(ctx).with_stream(a.format, Cursor::new(signed.clone())).ok().and_then(|r| r.active_label().map(|s| s.to_string()));
+            items.push(PoolItem { name: format!("signed-v1:{n}"), format: a.format, bytes: signed, signed: true, active_label: label, redactable: Some("org.verif.ing".into()), claim_v1: true });
         }
     }
     let n_signed = items.len();
     for n in pick {
         let Some(a) = tiny.iter().find(|a| a.name == n) else { continue };
-        items.push(PoolItem { name: format!("unsigned:{n}"), format: a.format, bytes: a.bytes.clone(), signed: false, active_label: None, redactable: None });
+        items.push(PoolItem { name: format!("unsigned:{n}"), format: a.format, bytes: a.bytes.clone(), signed: false, active_label: None, redactable: None, claim_v1: false });
     }
     IngredientPool { items, n_signed }
 }
